@@ -27,6 +27,9 @@ int    sim_ledger_live_for_tag (int tag, void **out, int max);
 int    sim_ledger_unreachable_live (int tag);        /* live, tagged (or any: -2), not reachable from library statics */
 void   sim_ledger_adopt (void *p, size_t n);        /* converter output handed to libeav */
 void   sim_ledger_retag (int from, int to);
+void   sim_ledger_forget (int tag);    /* blocks of an object abandoned after an abort inside the library: no longer accounted */
+/* allocation fault: the at-th allocation (malloc/calloc/strdup/strndup) made by library code from now on returns NULL */
+extern int g_sim_af_at, g_sim_af_n, g_sim_af_fired;
 uint64_t sim_ledger_allocs (void);
 uint64_t sim_ledger_frees (void);
 void  *sim_raw_malloc (size_t n);
@@ -66,6 +69,7 @@ extern int g_sim_in_free;           /* harness: currently inside eav_free */
 void sim_ctx_reset (void);
 int  sim_ctx_live_for_tag (int tag);
 void sim_ctx_retag (int from, int to);
+void sim_ctx_forget (int tag);       /* the object owning these contexts was abandoned after an abort inside the library */
 
 /* ---- shim: backend-neutral view of libeav (shim.c, compiled per backend) ---- */
 struct shim_res {
@@ -78,6 +82,7 @@ struct shim_res {
 size_t shim_eav_size (void);
 const char *shim_backend (void);
 int  shim_has_extra (void);
+int  shim_has_ndebug (void);
 void shim_init (void *e);
 void shim_free (void *e);
 int  shim_setup (void *e);
